@@ -53,7 +53,7 @@ def required_reach(tier: str) -> dict[str, int]:
     return {"contention.during-pending": 5, "contention.during-retry": 3, "tp.inside-window-attempt": 5, "cancel.while-holding": 5,
             "cancel.while-waiting": 5, "late-reply-surfaced-as-error": 3, "histories": 500, "overlapping-histories": 200,
             "reconnect.contended": 3, "results.owned": 1000, "transport-mode.calls": 200, "cancel.during-db-insert": 20, "cancel.reconnector": 20,
-            "db-logging.histories": 200, "raw-form.calls": 500}
+            "db-logging.histories": 200, "raw-form.calls": 500, "plain-client.histories": 300}
 
 
 class Wire:
@@ -176,6 +176,8 @@ def build_case(rng: random.Random) -> dict[str, Any]:
             "reconnect_timeout": rng.choice([None, None, 0.1, 0.4, 2]),
             # callers may use the raw request form (send_raw), which must be matched against its own reply just as strictly
             "raw": rng.random() < 0.35,
+            # a plain UDSClient (no ECU layer, hence no tester-present worker and no database logging) has its own locked request path
+            "plain_client": rng.random() < 0.2,
             # a database handler whose insert is a suspension point (as the real queue put / a full queue is): logging happens after the
             # exchange, outside the client mutex
             "db": rng.random() < 0.4}
@@ -214,7 +216,13 @@ async def run_history(case: dict[str, Any], cancel_at: int | None, cancel_idx: i
 
     hist: list[tuple[Any, ...]] = []
     wire = Wire(plans_for(case), random.Random(case["yield_seed"]), hist)
-    ecu = ECU(wire.transport, timeout=case["timeout"], max_retry=case["max_retry"])
+    if case.get("plain_client") and case.get("mode") != "transport":
+        from gallia.services.uds.core.client import UDSClient
+
+        ecu = UDSClient(wire.transport, timeout=case["timeout"], max_retry=case["max_retry"])  # type: ignore[assignment]
+        case = {**case, "tp": None, "db": False}
+    else:
+        ecu = ECU(wire.transport, timeout=case["timeout"], max_retry=case["max_retry"])
     if case.get("db"):
 
         class _DB:
@@ -229,6 +237,8 @@ async def run_history(case: dict[str, Any], cancel_at: int | None, cancel_idx: i
     loop = asyncio.get_running_loop()
     results: dict[str, list[Any]] = {}
     ctx_reach: list[str] = ["db-logging.histories"] if ctx_reach_db else []
+    if not isinstance(ecu, ECU):
+        ctx_reach.append("plain-client.histories")
 
     class _R:
         def __init__(self, pdu: bytes):
@@ -274,7 +284,7 @@ async def run_history(case: dict[str, Any], cancel_at: int | None, cancel_idx: i
             hist.append(("return", "reconnector", ("exc", type(e).__name__), loop.time()))
 
     # the tester-present worker calls self.ping(): record call/return at that client boundary as well
-    orig_ping = ecu.ping
+    orig_ping = getattr(ecu, "ping", None)
 
     async def ping(config: Any = None) -> Any:
         name = wire.who()
@@ -290,7 +300,8 @@ async def run_history(case: dict[str, Any], cancel_at: int | None, cancel_idx: i
             hist.append(("return", name, ("exc", type(e).__name__), loop.time()))
             raise
 
-    ecu.ping = ping  # type: ignore[method-assign]
+    if orig_ping is not None:
+        ecu.ping = ping  # type: ignore[method-assign]
     tasks = [asyncio.create_task(caller(i, c), name=f"caller{i}") for i, c in enumerate(case["callers"])]
     if case["reconnect_at"] is not None:
         tasks.append(asyncio.create_task(reconnector(case["reconnect_at"]), name="reconnector"))
